@@ -154,7 +154,10 @@ pub fn node(args: &Args) {
         }
         let mut seed = [0u8; 32];
         seed[0] = (case % 251) as u8;
-        let world = World::new(policy, seed, KeyDerivationStyle::Native);
+        let mut world = World::new(policy, seed, KeyDerivationStyle::Native);
+        // every second case under the on-chain validator (what the daemon runs): it wraps the simple one and must
+        // enforce the CONFIGURED limits of both velocity controls
+        world.onchain = case % 2 == 1;
         let mut node = world.new_node();
         // one case in three: the operator has allowlisted the payees (the keysend destination and the
         // key the BOLT11 invoices are signed with); the velocity control counts their approvals all the same
@@ -389,7 +392,7 @@ pub fn node(args: &Args) {
         let coq_f = format!("(({}, {}), {}, {})", f_name, f_limit, coq_list(&f_ops), coq_list(&f_obs));
         emit(
             "CASE",
-            json!({"id": case, "kind": "node", "payees_allowlisted": payees_allowlisted, "pay_spec": [p_name, p_limit], "fee_spec": [f_name, f_limit], "ops": jops,
+            json!({"id": case, "kind": "node", "validator": if world.onchain { "onchain" } else { "simple" }, "payees_allowlisted": payees_allowlisted, "pay_spec": [p_name, p_limit], "fee_spec": [f_name, f_limit], "ops": jops,
                    "monitor_violation_pay": viol_json(p_viol), "monitor_violation_fee": viol_json(f_viol),
                    "coq_pay": coq_p, "coq_fee": coq_f}),
         );
